@@ -911,8 +911,8 @@ func fnAndHelpers(fn *ssa.Function, depth int) []*ssa.Function {
 				if callee == nil {
 					continue
 				}
-				if o := callee.Origin(); o != nil && len(callee.Blocks) == 0 {
-					callee = o
+				if b := bodyOf(callee); b != nil {
+					callee = b
 				}
 				if seen[callee] || len(callee.Blocks) == 0 || fnPkgPath(callee) == "" || fnPkgPath(callee) != fnPkgPath(fn) {
 					continue
